@@ -62,7 +62,7 @@ Ltac ltb_cases :=
 (* ---------------------------------------------------------------------------------------------- *)
 Definition same_flags (a b : sess) : Prop :=
   s_client a = s_client b /\ s_has_listener a = s_has_listener b /\ s_has_manager a = s_has_manager b
-  /\ s_epoch a = s_epoch b.
+  /\ s_epoch a = s_epoch b /\ s_lstate a = s_lstate b.
 Lemma same_flags_refl a : same_flags a a.
 Proof. repeat split. Qed.
 Lemma same_flags_trans a b c : same_flags a b -> same_flags b c -> same_flags a c.
@@ -127,25 +127,30 @@ Qed.
 (* ---------------------------------------------------------------------------------------------- *)
 Lemma run_handler_done t s h buf n s' acts e :
   run_handler t s h buf = HDone n s' acts e ->
-  e = None /\ 0 < n <= c_headerSize + zlen buf /\ same_flags s s' /\
-  (forall ep, In (APostHotRestart ep) acts -> t = c_typeHotRestart) \/
-  (e = Some EInvalidMsgType /\ n = 0 /\ s' = s /\ acts = [] /\
-   t <> c_typePolling /\ t <> c_typeStreamClose /\ t <> c_typeFallbackData /\ t <> c_typeHotRestart /\ t <> c_typeHotRestartAck).
+  same_flags s s' /\
+  (forall ep, In (APostHotRestart ep) acts -> s_has_manager s = true) /\
+  match e with
+  | None => 0 < n <= c_headerSize + zlen buf
+  | Some _ => 0 <= n <= c_headerSize /\ s' = s /\ acts = []
+  end.
 Proof.
   unfold run_handler.
   destruct (t =? c_typePolling) eqn:T1.
   { unfold handle_polling. destruct (drain (s_queue s) (with_queue s [])) as [s1 a1] eqn:D.
     apply drain_props in D. destruct D as [F N].
-    intros E; inversion E; subst. left. pose proof (zlen_nonneg buf). unfold c_headerSize.
-    repeat split; try lia; try apply F.
+    intros E; inversion E; subst. pose proof (zlen_nonneg buf). unfold c_headerSize.
+    split; [apply F|]. split; [|lia].
     intros ep [X | X]; [discriminate | exfalso; eapply N; eauto]. }
   destruct (t =? c_typeStreamClose) eqn:T2.
   { unfold handle_stream_close. destruct (zlen buf <? streamCloseIdLen) eqn:L; [discriminate|].
     destruct (half_close s (be32 buf 0)) as [s1 a1] eqn:HC. apply half_close_props in HC. destruct HC as [F N].
-    intros E; inversion E; subst. left. ltb_cases. unfold c_headerSize, streamCloseIdLen in *.
-    repeat split; try lia; try apply F. intros ep X. exfalso; eapply N; eauto. }
+    intros E; inversion E; subst. ltb_cases. unfold c_headerSize, streamCloseIdLen in *.
+    split; [exact F|]. split; [|lia]. intros ep X. exfalso; eapply N; eauto. }
   destruct (t =? c_typeFallbackData) eqn:T3.
   { unfold handle_fallback.
+    destruct (hdr_length h - c_headerSize <? fallbackDataHeader) eqn:L0.
+    { intros E; inversion E; subst. unfold c_headerSize.
+      split; [apply same_flags_refl|]. split; [intros ep []|]. repeat split; lia. }
     destruct (zlen buf <? hdr_length h - c_headerSize) eqn:L1; [discriminate|].
     destruct (hdr_length h - c_headerSize <? 0) eqn:L2; [discriminate|].
     destruct (hdr_length h - c_headerSize <? 4) eqn:L3; [discriminate|].
@@ -155,56 +160,57 @@ Proof.
     apply get_stream_props in G. destruct G as [F1 N1]. ltb_cases. unfold c_headerSize in *.
     destruct found.
     - destruct (stream_message s1 _ _ true _) as [s2 a2] eqn:SM. apply stream_message_props in SM.
-      destruct SM as [F2 N2]. intros E; inversion E; subst. left.
-      split; [reflexivity|]. split; [lia|]. split; [eapply same_flags_trans; eauto|].
+      destruct SM as [F2 N2]. intros E; inversion E; subst.
+      split; [eapply same_flags_trans; eauto|]. split; [|lia].
       intros ep X. exfalso. cbn [app] in X. destruct X as [X | X]; [discriminate|].
       apply in_app_or in X. destruct X; [eapply N1 | eapply N2]; eauto.
-    - intros E; inversion E; subst. left.
-      split; [reflexivity|]. split; [lia|]. split; [exact F1|].
+    - intros E; inversion E; subst.
+      split; [exact F1|]. split; [|lia].
       intros ep X. exfalso. cbn [app] in X. destruct X as [X | X]; [discriminate|].
       eapply N1; eauto. }
   destruct (t =? c_typeHotRestart) eqn:T4.
-  { unfold handle_hot_restart. destruct (zlen buf <? c_epochIDLen) eqn:L; [discriminate|].
-    intros E; inversion E; subst. left. ltb_cases. unfold c_headerSize, c_epochIDLen in *.
-    apply Z.eqb_eq in T4. repeat split; try lia; try (intros ep _; exact T4). }
+  { unfold handle_hot_restart. destruct (s_has_manager s) eqn:M; cbn [negb].
+    2:{ intros E; inversion E; subst. unfold c_headerSize.
+        split; [apply same_flags_refl|]. split; [intros ep []|]. repeat split; lia. }
+    destruct (zlen buf <? c_epochIDLen) eqn:L; [discriminate|].
+    intros E; inversion E; subst. ltb_cases. unfold c_headerSize, c_epochIDLen in *.
+    split; [apply same_flags_refl|]. split; [intros ep _; reflexivity | lia]. }
   destruct (t =? c_typeHotRestartAck) eqn:T5.
-  { unfold handle_hot_restart_ack. destruct (zlen buf <? c_epochIDLen) eqn:L; [discriminate|].
-    destruct (negb (s_has_listener s)); [discriminate|].
-    intros E; inversion E; subst. left. ltb_cases. unfold c_headerSize, c_epochIDLen in *.
-    repeat split; try lia; try (intros ep [X | []]; discriminate). }
-  intros E; inversion E; subst. right.
-  apply Z.eqb_neq in T1, T2, T3, T4, T5. repeat split; assumption.
+  { unfold handle_hot_restart_ack. destruct (s_has_listener s) eqn:Li; cbn [negb].
+    2:{ intros E; inversion E; subst. unfold c_headerSize.
+        split; [apply same_flags_refl|]. split; [intros ep []|]. repeat split; lia. }
+    destruct (zlen buf <? c_epochIDLen) eqn:L; [discriminate|].
+    intros E; inversion E; subst. ltb_cases. unfold c_headerSize, c_epochIDLen in *.
+    split; [destruct (_ && _); repeat split|]. split; [|lia].
+    intros ep [X | []]; discriminate. }
+  intros E; inversion E; subst. unfold c_headerSize.
+  split; [apply same_flags_refl|]. split; [intros ep []|]. repeat split; lia.
 Qed.
 
-Lemma run_handler_panic t s h buf p :
-  run_handler t s h buf = HPanic p ->
-  (p = PMakeslice /\ t = c_typeFallbackData /\ hdr_length h < c_headerSize) \/
-  (p = PSliceBounds /\ t = c_typeFallbackData /\ c_headerSize <= hdr_length h < c_headerSize + fallbackDataHeader) \/
-  (p = PNilListener /\ t = c_typeHotRestartAck /\ s_has_listener s = false).
+(* no handler panics: every slice expression and the listener dereference sit behind the check the code performs *)
+Lemma run_handler_no_panic t s h buf p : run_handler t s h buf <> HPanic p.
 Proof.
   unfold run_handler.
-  destruct (t =? c_typePolling) eqn:T1.
+  destruct (t =? c_typePolling).
   { unfold handle_polling. destruct (drain _ _). discriminate. }
-  destruct (t =? c_typeStreamClose) eqn:T2.
+  destruct (t =? c_typeStreamClose).
   { unfold handle_stream_close. destruct (_ <? _); [discriminate|]. destruct (half_close _ _). discriminate. }
-  destruct (t =? c_typeFallbackData) eqn:T3.
-  { apply Z.eqb_eq in T3. unfold handle_fallback.
+  destruct (t =? c_typeFallbackData).
+  { unfold handle_fallback.
+    destruct (hdr_length h - c_headerSize <? fallbackDataHeader) eqn:L0; [discriminate|].
     destruct (zlen buf <? hdr_length h - c_headerSize) eqn:L1; [discriminate|].
-    destruct (hdr_length h - c_headerSize <? 0) eqn:L2.
-    { intros E; inversion E; subst. left. ltb_cases. repeat split; lia. }
-    destruct (hdr_length h - c_headerSize <? 4) eqn:L3.
-    { intros E; inversion E; subst. right; left. ltb_cases. unfold fallbackDataHeader. repeat split; lia. }
-    destruct (hdr_length h - c_headerSize <? 8) eqn:L4.
-    { intros E; inversion E; subst. right; left. ltb_cases. unfold fallbackDataHeader. repeat split; lia. }
+    ltb_cases. unfold fallbackDataHeader in L0.
+    destruct (hdr_length h - c_headerSize <? 0) eqn:L2; [ltb_cases; lia|].
+    destruct (hdr_length h - c_headerSize <? 4) eqn:L3; [ltb_cases; lia|].
+    destruct (hdr_length h - c_headerSize <? 8) eqn:L4; [ltb_cases; lia|].
     destruct (get_stream _ _ _) as [[s1 found] a1]. destruct found.
     - destruct (stream_message _ _ _ _ _). discriminate.
     - discriminate. }
-  destruct (t =? c_typeHotRestart) eqn:T4.
-  { unfold handle_hot_restart. destruct (_ <? _); discriminate. }
-  destruct (t =? c_typeHotRestartAck) eqn:T5.
-  { apply Z.eqb_eq in T5. unfold handle_hot_restart_ack. destruct (_ <? _); [discriminate|].
-    destruct (s_has_listener s) eqn:L; cbn [negb]; [discriminate|].
-    intros E; inversion E; subst. right; right. repeat split; assumption. }
+  destruct (t =? c_typeHotRestart).
+  { unfold handle_hot_restart. destruct (negb _); [discriminate|]. destruct (_ <? _); discriminate. }
+  destruct (t =? c_typeHotRestartAck).
+  { unfold handle_hot_restart_ack. destruct (s_has_listener s) eqn:L; cbn [negb]; [|discriminate].
+    destruct (_ <? _); discriminate. }
   discriminate.
 Qed.
 
@@ -221,20 +227,23 @@ Proof.
       by (symmetry; apply Z.ltb_ge; rewrite zlen_app; pose proof (zlen_nonneg more); lia).
     rewrite be32_app by (unfold zlen in L; lia). reflexivity. }
   destruct (t =? c_typeFallbackData).
-  { unfold handle_fallback. destruct (zlen buf <? hdr_length h - c_headerSize) eqn:L; [congruence|]. intros _.
+  { unfold handle_fallback. destruct (hdr_length h - c_headerSize <? fallbackDataHeader); [reflexivity|].
+    destruct (zlen buf <? hdr_length h - c_headerSize) eqn:L; [congruence|]. intros _.
     ltb_cases.
     replace (zlen (buf ++ more) <? hdr_length h - c_headerSize) with false
       by (symmetry; apply Z.ltb_ge; rewrite zlen_app; pose proof (zlen_nonneg more); lia).
     destruct (hdr_length h - c_headerSize <? 0) eqn:L2; [reflexivity|]. ltb_cases.
     rewrite firstn_app_le by (unfold zlen in L; lia). reflexivity. }
   destruct (t =? c_typeHotRestart).
-  { unfold handle_hot_restart. destruct (zlen buf <? c_epochIDLen) eqn:L; [congruence|]. intros _.
+  { unfold handle_hot_restart. destruct (negb (s_has_manager s)); [reflexivity|].
+    destruct (zlen buf <? c_epochIDLen) eqn:L; [congruence|]. intros _.
     ltb_cases. unfold c_epochIDLen in *.
     replace (zlen (buf ++ more) <? 8) with false
       by (symmetry; apply Z.ltb_ge; rewrite zlen_app; pose proof (zlen_nonneg more); lia).
     rewrite be64_app by (unfold zlen in L; lia). reflexivity. }
   destruct (t =? c_typeHotRestartAck).
-  { unfold handle_hot_restart_ack. destruct (zlen buf <? c_epochIDLen) eqn:L; [congruence|]. intros _.
+  { unfold handle_hot_restart_ack. destruct (negb (s_has_listener s)) eqn:NL; [reflexivity|].
+    destruct (zlen buf <? c_epochIDLen) eqn:L; [congruence|]. intros _.
     ltb_cases. unfold c_epochIDLen in *.
     replace (zlen (buf ++ more) <? 8) with false
       by (symmetry; apply Z.ltb_ge; rewrite zlen_app; pose proof (zlen_nonneg more); lia).
@@ -248,13 +257,13 @@ Qed.
 Lemma step1_next s rest n s' acts :
   step1 s rest = SNext n s' acts ->
   0 < n <= zlen rest /\ same_flags s s' /\
-  (forall ep, In (APostHotRestart ep) acts -> hdr_type (firstn (Z.to_nat c_headerSize) rest) = c_typeHotRestart).
+  (forall ep, In (APostHotRestart ep) acts -> s_has_manager s = true).
 Proof.
   unfold step1. destruct (zlen rest <? c_headerSize) eqn:L; [discriminate|].
   destruct (check_header _); try discriminate.
   destruct (_ || _); [discriminate|]. destruct (negb _); [discriminate|].
   destruct (run_handler _ s _ _) as [|n0 s0 a0 e0|p] eqn:R; try discriminate.
-  apply run_handler_done in R. destruct R as [(-> & Hn & F & P) | (-> & _)]; [|discriminate].
+  apply run_handler_done in R. destruct R as (F & P & Hn). destruct e0; [discriminate|].
   intros E; inversion E; subst. ltb_cases. split; [|split; assumption].
   change (Z.to_nat c_headerSize) with 8%nat in Hn. rewrite zlen_skipn in Hn.
   unfold c_headerSize, zlen in *. lia.
@@ -269,24 +278,18 @@ Proof.
   revert E. destruct (_ || _); [intros E; inversion E; subst; auto|].
   destruct (negb _); [intros E; inversion E; subst; auto|].
   destruct (run_handler _ s _ _) as [|n0 s0 a0 e0|p] eqn:R; try discriminate.
-  apply run_handler_done in R. destruct R as [(-> & _) | (-> & -> & -> & -> & _)]; [discriminate|].
-  intros E; inversion E; subst. repeat split; lia.
+  apply run_handler_done in R. destruct R as (_ & _ & Hn). destruct e0; [|discriminate].
+  destruct Hn as (Hn & -> & ->). intros E; inversion E; subst. repeat split; lia.
 Qed.
 
-Lemma step1_panic s rest p :
-  step1 s rest = SPanic p ->
-  let h := firstn (Z.to_nat c_headerSize) rest in
-  c_headerSize <= zlen rest /\ check_header h = HdrOk /\
-  ((p = PMakeslice /\ hdr_type h = c_typeFallbackData /\ hdr_length h < c_headerSize) \/
-   (p = PSliceBounds /\ hdr_type h = c_typeFallbackData /\ c_headerSize <= hdr_length h < c_headerSize + fallbackDataHeader) \/
-   (p = PNilListener /\ hdr_type h = c_typeHotRestartAck /\ s_has_listener s = false)).
+Lemma step1_no_panic s rest p : step1 s rest <> SPanic p.
 Proof.
-  unfold step1. destruct (zlen rest <? c_headerSize) eqn:L; [discriminate|]. ltb_cases.
-  destruct (check_header _) eqn:C; try discriminate.
+  unfold step1. destruct (zlen rest <? c_headerSize); [discriminate|].
+  destruct (check_header _); try discriminate.
   destruct (_ || _); [discriminate|]. destruct (negb _); [discriminate|].
   destruct (run_handler _ s _ _) as [|n0 s0 a0 e0|p0] eqn:R; try discriminate.
   - destruct e0; discriminate.
-  - intros E; inversion E; subst. apply run_handler_panic in R. cbv zeta. auto.
+  - exfalso. eapply run_handler_no_panic; eauto.
 Qed.
 
 Lemma step1_mono s rest more :
@@ -492,164 +495,103 @@ Qed.
 (* ---------------------------------------------------------------------------------------------- *)
 (* panics                                                                                          *)
 (* ---------------------------------------------------------------------------------------------- *)
-Lemma dispatched_fuel f1 : forall f2 s rest, (length rest < f1)%nat -> (length rest < f2)%nat ->
-  dispatched f1 s rest = dispatched f2 s rest.
+Theorem handle_events_no_panic : forall rest s p, r_outcome (handle_events s rest) <> Panic p.
 Proof.
-  induction f1 as [|f1 IH]; intros f2 s rest H1 H2; [lia|].
-  destruct f2 as [|f2]; [lia|]. cbn [dispatched].
-  destruct (zlen rest <? c_headerSize); [reflexivity|].
-  destruct (step1 s rest) as [|n s' acts|n s' acts e|p] eqn:S1; try reflexivity.
-  apply step1_next in S1. destruct S1 as [Hn _]. pose proof (skipn_shorter n rest Hn).
-  f_equal. apply IH; lia.
+  induction rest as [rest IH] using rest_ind. intros s p. rewrite handle_events_unfold.
+  destruct (step1 s rest) as [|n s' acts|n s' acts e|p0] eqn:S1; rsimp; try discriminate.
+  - apply step1_next in S1. destruct S1 as (Hn & _). apply IH. now apply skipn_shorter.
+  - exfalso. eapply step1_no_panic; eauto.
 Qed.
 
-Lemma dispatched_unfold s rest :
-  dispatched_events s rest =
-  if zlen rest <? c_headerSize then []
-  else
-    let h := firstn (Z.to_nat c_headerSize) rest in
-    let me := (hdr_type h, hdr_length h) in
-    match step1 s rest with
-    | SNeedMore => match check_header h with HdrOk => [me] | _ => [] end
-    | SPanic _ => [me]
-    | SErr _ _ _ _ => []
-    | SNext n s' _ => me :: dispatched_events s' (skipn (Z.to_nat n) rest)
-    end.
+(* a hot-restart lambda is only posted by a session that has a manager *)
+Lemma posted_has_manager : forall rest s ep,
+  In (APostHotRestart ep) (r_actions (handle_events s rest)) -> s_has_manager s = true.
 Proof.
-  unfold dispatched_events at 1. cbn [dispatched].
-  destruct (zlen rest <? c_headerSize); [reflexivity|]. cbv zeta.
-  destruct (step1 s rest) as [|n s' acts|n s' acts e|p] eqn:S1; try reflexivity.
-  apply step1_next in S1. destruct S1 as [Hn _]. pose proof (skipn_shorter n rest Hn).
-  f_equal. unfold dispatched_events. apply dispatched_fuel; lia.
-Qed.
-
-(* every panic inside handleEvents is one of the three known ones, at a dispatched event *)
-Theorem panic_characterised : forall rest s p,
-  r_outcome (handle_events s rest) = Panic p ->
-  (p = PMakeslice /\ exists len, In (c_typeFallbackData, len) (dispatched_events s rest) /\ len < c_headerSize) \/
-  (p = PSliceBounds /\ exists len, In (c_typeFallbackData, len) (dispatched_events s rest)
-                                   /\ c_headerSize <= len < c_headerSize + fallbackDataHeader) \/
-  (p = PNilListener /\ s_has_listener s = false /\ exists len, In (c_typeHotRestartAck, len) (dispatched_events s rest)).
-Proof.
-  induction rest as [rest IH] using rest_ind. intros s p.
-  rewrite handle_events_unfold, dispatched_unfold.
-  destruct (step1 s rest) as [|n s' acts|n s' acts e|p0] eqn:S1; cbn [r_outcome shift]; try discriminate.
-  - intros O. pose proof S1 as S1'. apply step1_next in S1'. destruct S1' as (Hn & F & _).
-    replace (zlen rest <? c_headerSize) with false.
-    2:{ symmetry. apply Z.ltb_ge. unfold step1 in S1. destruct (zlen rest <? c_headerSize) eqn:L; [discriminate|]. now ltb_cases. }
-    cbv zeta. specialize (IH _ (skipn_shorter n rest Hn) s' p O).
-    destruct IH as [(-> & len & I & B) | [(-> & len & I & B) | (-> & L & len & I)]].
-    + left. split; [reflexivity|]. exists len. split; [right; exact I | exact B].
-    + right; left. split; [reflexivity|]. exists len. split; [right; exact I | exact B].
-    + right; right. split; [reflexivity|]. split; [destruct F as (_ & -> & _); exact L|].
-      exists len. right; exact I.
-  - intros E; inversion E; subst. apply step1_panic in S1. cbv zeta in S1.
-    destruct S1 as (L & C & S1).
-    replace (zlen rest <? c_headerSize) with false by (symmetry; apply Z.ltb_ge; exact L).
-    cbv zeta.
-    destruct S1 as [(-> & T & B) | [(-> & T & B) | (-> & T & B)]].
-    + left. split; [reflexivity|]. eexists. split; [left; rewrite T; reflexivity | exact B].
-    + right; left. split; [reflexivity|]. eexists. split; [left; rewrite T; reflexivity | exact B].
-    + right; right. split; [reflexivity|]. split; [exact B|]. eexists. left. rewrite T. reflexivity.
-Qed.
-
-(* a posted hot-restart lambda comes from a dispatched typeHotRestart event *)
-Lemma posted_dispatched : forall rest s ep,
-  In (APostHotRestart ep) (r_actions (handle_events s rest)) ->
-  exists len, In (c_typeHotRestart, len) (dispatched_events s rest).
-Proof.
-  induction rest as [rest IH] using rest_ind. intros s ep.
-  rewrite handle_events_unfold, dispatched_unfold.
-  destruct (step1 s rest) as [|n s' acts|n s' acts e|p0] eqn:S1; cbn [r_actions shift]; try (intros []).
-  - intros I. pose proof S1 as S1'. apply step1_next in S1'. destruct S1' as (Hn & F & P).
-    replace (zlen rest <? c_headerSize) with false.
-    2:{ symmetry. apply Z.ltb_ge. unfold step1 in S1. destruct (zlen rest <? c_headerSize) eqn:L; [discriminate|]. now ltb_cases. }
-    cbv zeta. apply in_app_or in I. destruct I as [I | I].
-    + eexists. left. rewrite (P _ I). reflexivity.
-    + destruct (IH _ (skipn_shorter n rest Hn) s' ep I) as [len I']. exists len. right; exact I'.
+  induction rest as [rest IH] using rest_ind. intros s ep. rewrite handle_events_unfold.
+  destruct (step1 s rest) as [|n s' acts|n s' acts e|p0] eqn:S1; rsimp; try (intros []).
+  - intros I. apply step1_next in S1. destruct S1 as (Hn & F & P).
+    apply in_app_or in I. destruct I as [I | I]; [eapply P; eauto|].
+    destruct F as (_ & _ & -> & _). eapply IH; [now apply skipn_shorter | exact I].
   - apply step1_err in S1. destruct S1 as (_ & _ & ->). intros [].
 Qed.
 
-Theorem partial_no_panic : forall s bytes,
-  (forall len, In (c_typeFallbackData, len) (dispatched_events s bytes) -> c_headerSize + fallbackDataHeader <= len) ->
-  ((exists len, In (c_typeHotRestartAck, len) (dispatched_events s bytes)) -> s_has_listener s = true) ->
-  ((exists len, In (c_typeHotRestart, len) (dispatched_events s bytes)) -> s_has_manager s = true) ->
-  forall p, deliver_outcome s bytes <> Panic p.
+Theorem no_panic : forall s bytes,
+  (forall p, deliver_outcome s bytes <> Panic p) /\ 0 <= r_consumed (handle_events s bytes) <= zlen bytes.
 Proof.
-  intros s bytes HF HL HM p. unfold deliver_outcome.
-  assert (NP : forall q, r_outcome (handle_events s bytes) <> Panic q).
-  { intros q O. apply panic_characterised in O.
-    destruct O as [(_ & len & I & B) | [(_ & len & I & B) | (_ & L & E)]].
-    - apply HF in I. unfold fallbackDataHeader in *. lia.
-    - apply HF in I. lia.
-    - rewrite (HL E) in L. discriminate. }
+  intros s bytes. split; [|apply consumed_bound]. intros p. unfold deliver_outcome.
   assert (RP : run_posted s (r_actions (handle_events s bytes)) = Ok).
   { unfold run_posted. destruct (existsb _ _) eqn:X; [|reflexivity]. exfalso.
     apply existsb_exists in X. destruct X as (a & I & Pa). destruct a; try discriminate.
-    cbn [posted_panics] in Pa. apply posted_dispatched in I. rewrite (HM I) in Pa. discriminate. }
+    cbn [posted_panics] in Pa. apply posted_has_manager in I. rewrite I in Pa. discriminate. }
   rewrite RP. destruct (r_outcome (handle_events s bytes)) eqn:O; try discriminate.
-  exfalso. eapply NP; reflexivity.
+  exfalso. eapply handle_events_no_panic; eauto.
 Qed.
 
 (* ---------------------------------------------------------------------------------------------- *)
 (* handshake                                                                                       *)
 (* ---------------------------------------------------------------------------------------------- *)
-Lemma extract_panic_iff body : extract_shm_metadata body = MetaPanic <-> meta_wf body = false.
+(* extractShmMetadata accepts exactly the bodies that pass [meta_wf], rejects the others with an error, and never
+   slices out of range *)
+Lemma extract_spec body :
+  (meta_wf body = true -> exists q b, extract_shm_metadata body = MetaOk q b) /\
+  (meta_wf body = false -> extract_shm_metadata body = MetaErr).
 Proof.
-  unfold extract_shm_metadata, meta_wf.
+  unfold extract_shm_metadata, meta_wf. change (0 + 2) with 2.
   destruct (zlen body <? 2) eqn:L1.
-  { ltb_cases. replace (2 <=? zlen body) with false by (symmetry; apply Z.leb_gt; lia). cbn. tauto. }
+  { ltb_cases. replace (2 <=? zlen body) with false by (symmetry; apply Z.leb_gt; lia). cbn. split; [discriminate | reflexivity]. }
   ltb_cases. replace (2 <=? zlen body) with true by (symmetry; apply Z.leb_le; lia). cbn [andb].
   pose proof (byte_at_range body 0). pose proof (byte_at_range body 1).
   assert (Q : 0 <= be16 body 0) by (unfold be16; cbn [Nat.add]; lia).
-  destruct (zlen body <? 2 + be16 body 0) eqn:L2.
-  { ltb_cases. replace (2 + be16 body 0 + 2 <=? zlen body) with false by (symmetry; apply Z.leb_gt; lia). cbn. tauto. }
   destruct (zlen body <? 2 + be16 body 0 + 2) eqn:L3.
-  { ltb_cases. replace (2 + be16 body 0 + 2 <=? zlen body) with false by (symmetry; apply Z.leb_gt; lia). cbn. tauto. }
+  { ltb_cases. replace (2 + be16 body 0 + 2 <=? zlen body) with false by (symmetry; apply Z.leb_gt; lia). cbn.
+    split; [discriminate | reflexivity]. }
   ltb_cases. replace (2 + be16 body 0 + 2 <=? zlen body) with true by (symmetry; apply Z.leb_le; lia). cbn [andb].
+  replace (zlen body <? 2 + be16 body 0) with false by (symmetry; apply Z.ltb_ge; lia).
   destruct (zlen body <? 2 + be16 body 0 + 2 + be16 body (Z.to_nat (2 + be16 body 0))) eqn:L4; ltb_cases.
-  - replace (_ <=? zlen body) with false by (symmetry; apply Z.leb_gt; lia). tauto.
-  - replace (_ <=? zlen body) with true by (symmetry; apply Z.leb_le; lia). split; discriminate.
+  - replace (_ <=? zlen body) with false by (symmetry; apply Z.leb_gt; lia). split; [discriminate | reflexivity].
+  - replace (_ <=? zlen body) with true by (symmetry; apply Z.leb_le; lia). split; [eauto | discriminate].
 Qed.
 
-Lemma hs_share_by_path_panic h input replies :
-  hs_out (hs_share_by_path h input replies) = HsPanic ->
-  exists body, hs_body (hs_share_by_path h input replies) = Some body /\ meta_wf body = false.
+Lemma extract_no_panic body : extract_shm_metadata body <> MetaPanic.
 Proof.
-  unfold hs_share_by_path. destruct (read_body h input) as [body|]; [|discriminate].
-  destruct (extract_shm_metadata body) eqn:E; [|discriminate].
-  intros _. exists body. split; [reflexivity | now apply extract_panic_iff].
-Qed.
-Lemma hs_share_by_memfd_panic v h input replies :
-  hs_out (hs_share_by_memfd v h input replies) = HsPanic ->
-  exists body, hs_body (hs_share_by_memfd v h input replies) = Some body /\ meta_wf body = false.
-Proof.
-  unfold hs_share_by_memfd. destruct (read_body h input) as [body|]; [|discriminate].
-  destruct (extract_shm_metadata body) eqn:E; [|discriminate].
-  intros _. exists body. split; [reflexivity | now apply extract_panic_iff].
+  destruct (meta_wf body) eqn:W.
+  - destruct (proj1 (extract_spec body) W) as (q & b & ->). discriminate.
+  - rewrite (proj2 (extract_spec body) W). discriminate.
 Qed.
 
-Theorem handshake_panic_characterised : forall input,
-  hs_out (server_handshake input) = HsPanic ->
-  exists body, hs_body (server_handshake input) = Some body /\ meta_wf body = false.
+Lemma hs_share_by_path_no_panic h input replies : hs_out (hs_share_by_path h input replies) <> HsPanic.
+Proof.
+  unfold hs_share_by_path. destruct (read_body h input) as [| |body]; try discriminate.
+  pose proof (extract_no_panic body). destruct (extract_shm_metadata body); [congruence | discriminate | discriminate].
+Qed.
+Lemma hs_share_by_memfd_no_panic v h input replies : hs_out (hs_share_by_memfd v h input replies) <> HsPanic.
+Proof.
+  unfold hs_share_by_memfd. destruct (read_body h input) as [| |body]; try discriminate.
+  pose proof (extract_no_panic body). destruct (extract_shm_metadata body); [congruence | discriminate | discriminate].
+Qed.
+
+Theorem handshake_no_panic : forall input, hs_out (server_handshake input) <> HsPanic.
 Proof.
   intros input. unfold server_handshake.
   destruct (read_header input) as [[h|] rest]; [|discriminate].
   destruct (check_header h); try discriminate.
-  destruct (hdr_version h =? c_protoVersion).
-  { destruct (negb _); [discriminate|]. apply hs_share_by_path_panic. }
-  destruct (hdr_version h =? c_maxSupportProtoVersion); [|discriminate].
+  destruct (hdr_version h =? c_initializerVersion_2).
+  { destruct (negb _); [discriminate|]. apply hs_share_by_path_no_panic. }
+  destruct (hdr_version h =? c_initializerVersion_3); [|discriminate].
   destruct (negb _); [discriminate|].
   destruct (read_header rest) as [[h2|] rest2]; [|discriminate].
   destruct (check_header h2); try discriminate.
-  destruct (hdr_type h2 =? c_typeShareMemoryByFilePath); [apply hs_share_by_path_panic|].
-  destruct (hdr_type h2 =? c_typeShareMemoryByMemfd); [apply hs_share_by_memfd_panic | discriminate].
+  destruct (hdr_type h2 =? c_typeShareMemoryByFilePath); [apply hs_share_by_path_no_panic|].
+  destruct (hdr_type h2 =? c_typeShareMemoryByMemfd); [apply hs_share_by_memfd_no_panic | discriminate].
 Qed.
 
-Theorem handshake_partial_no_panic : forall input,
-  (forall body, hs_body (server_handshake input) = Some body -> meta_wf body = true) ->
-  hs_out (server_handshake input) <> HsPanic.
+(* the body length is never the result of a uint32 wrap: a body is only allocated for Length >= headerSize *)
+Lemma read_body_no_wrap h input body :
+  read_body h input = BodyOk body -> zlen body = hdr_length h - c_headerSize.
 Proof.
-  intros input H P. apply handshake_panic_characterised in P. destruct P as (body & B & W).
-  rewrite (H _ B) in W. discriminate.
+  unfold read_body. destruct (hdr_length h <? c_headerSize) eqn:L; [discriminate|]. ltb_cases.
+  pose proof (be32_range h 0) as R. unfold hdr_length in *. unfold w32.
+  rewrite Z.mod_small by (unfold c_headerSize in *; lia).
+  destruct (zlen input <? be32 h 0 - c_headerSize) eqn:L2; [discriminate|]. ltb_cases.
+  intros E; inversion E; subst. unfold zlen in *. rewrite firstn_length. unfold c_headerSize in *. lia.
 Qed.
